@@ -666,13 +666,37 @@ def ini_safe(s):
 
 class Collector:
     def __init__(self):
-        self.ops, self.real, self.kinds, self.post = [], [], [], []
+        self.ops, self.real, self.kinds, self.post, self.flags = [], [], [], [], []
 
-    def add(self, kind, op, real, post=None):
+    def add(self, kind, op, real, post=None, text=None):
         self.ops.append(op)
         self.real.append(real)
         self.kinds.append(kind)
         self.post.append(post)
+        self.flags.append(text_flags(text))
+
+
+def text_flags(s):
+    """coarse features of the input text, for the distribution report"""
+    if s is None:
+        return ''
+    f = ''
+    if len(s) > 600:
+        f += '+long'
+    if any(ord(c) > 127 for c in s.strip()):
+        f += '+unicode'
+    if '_' in s:
+        f += '+underscore'
+    t = s.strip()
+    if t.lower().lstrip('+-') in ('nan', 'inf', 'infinity'):
+        f += '+nan/inf'
+    else:
+        try:
+            if t and float(t) in (float('inf'), float('-inf')):
+                f += '+overflow'
+        except ValueError:
+            pass
+    return f
 
 
 def pick_inputs(rng, inputs_list, k):
@@ -802,9 +826,9 @@ def build(seed, n, thorough):
                 col.add('strip', f'strip {enc_text(s)}', enc_text(s.strip()))
                 col.add('lower', f'lower {enc_text(s)}', enc_text(s.lower()))
                 ok, v = real_call(int, s)
-                col.add('int', f'int {enc_text(s)}', 'int:' + enc_int(v) if ok else enc_exc(v))
+                col.add('int', f'int {enc_text(s)}', 'int:' + enc_int(v) if ok else enc_exc(v), text=s)
                 ok, v = real_call(float, s)
-                col.add('float', f'float {enc_text(s)}', 'float:' + float_bits(v) if ok else enc_exc(v))
+                col.add('float', f'float {enc_text(s)}', 'float:' + float_bits(v) if ok else enc_exc(v), text=s)
                 if rng.random() < 0.2:
                     col.add('rmdash', f'rmdash {enc_text(s)}', enc_text(s.replace('-', '')))
                 continue
@@ -834,7 +858,7 @@ def build(seed, n, thorough):
             if has_surrogate(s):
                 continue
             spec = enc_spec(inp)
-            col.add('valid.' + type(inp).__name__, f'valid {spec} {enc_text(s)}', real_valid(inp, s))
+            col.add('valid.' + type(inp).__name__, f'valid {spec} {enc_text(s)}', real_valid(inp, s), text=s)
             col.add('value.' + type(inp).__name__, f'value {spec} {enc_text(s)}', real_value(inp, s))
     finally:
         for f in os.listdir(tmpdir):
@@ -869,9 +893,9 @@ def run(seed, n, run_step, thorough=None):
     disagreements, distribution, samples = [], {}, {}
     if len(out) != len(col.ops):
         disagreements.append({'op': '<stream>', 'model': f'{len(out)} answers', 'real': f'{len(col.ops)} operations'})
-    for op, real, kind, post, model in zip(col.ops, col.real, col.kinds, col.post, out):
+    for op, real, kind, post, flags, model in zip(col.ops, col.real, col.kinds, col.post, col.flags, out):
         m = post(model) if post else model
-        b = branch_of(kind, real)
+        b = branch_of(kind, real) + flags
         distribution[b] = distribution.get(b, 0) + 1
         if b not in samples:
             samples[b] = {'op': op if len(op) < 300 else op[:300] + '…', 'real': real[:200]}
